@@ -9,8 +9,8 @@ use tonic::{Code, Status};
 
 pub fn run(cfg: &RunCfg) -> Ctx {
     let mut all = Ctx::new();
-    all.merge(par_cases(cfg, "roundtrip", cfg.n(30_000, 16 * 100_000), || (), |_, rng, ctx, _| roundtrip(rng, ctx)));
-    all.merge(par_cases(cfg, "total", cfg.n(40_000, 16 * 150_000), || (), |_, rng, ctx, _| totality(rng, ctx)));
+    all.merge(par_cases(cfg, "roundtrip", cfg.n(30_000, 16 * 2_000_000), || (), |_, rng, ctx, _| roundtrip(rng, ctx)));
+    all.merge(par_cases(cfg, "total", cfg.n(40_000, 16 * 3_000_000), || (), |_, rng, ctx, _| totality(rng, ctx)));
     all.merge(seq_cases(cfg, "httptable", 500, |_, ctx, i| http_table(ctx, 100 + i as u16)));
     #[cfg(feature = "full")]
     all.merge(seq_cases(cfg, "h2table", 24, |_, ctx, i| h2_table(ctx, i)));
